@@ -75,7 +75,7 @@ def impl_stub(case):
 
 
 def impl_real(case):
-    return P.show_per_event(P.real_parser, case)
+    return P.show_per_event(lambda: P.real_parser(case), case)
 
 
 def impl_pregate(case):
